@@ -9,6 +9,7 @@ static part : gen_static.py holds the reference rule and emits one type identity
 dynamic part: dyn.cpp (13 wrapper kinds, one binary each) x source category x payload x EVERY operation sequence of
               length <= L, judged by a cell model + addresses + copy counters + a lifetime registry + AddressSanitizer;
               misc.cpp: bitset element references and forward_sequence.
+              swapx.cpp: swap over every referent-designating wrapper / proxy kind x every swap spelling the kind offers (4 programs).
 """
 import hashlib
 import os
@@ -488,6 +489,17 @@ def run(ctx):
         "SWAP UNDER ALIASING: {optional, masked_value} x closure combinations with at least one reference closure {(T&,B&),(T&,B),(T,B&)} x value referents {same, distinct} x flag referents "
         "{same, distinct} x equal/different contents x {a.swap(b), b.swap(a), a.swap(a), free swap} x {int, Counted}, and closure(x) against closure(x) / closure(y): swap must exchange the contents of "
         "the designated objects component by component and rebind nothing. "
+        "SWAP OVER EVERY REFERENT-DESIGNATING KIND (swapx.cpp, NOTES.md section 12): 104 kinds - closure / proxy_wrapper x {int, double, Counted, MoveOnly} x {lvalue, rvalue source}; "
+        "optional(v,f) and masked_value(v,f) x value closure {T, T&} x flag closure {F, F&} x flag type F in {bool, int, unsigned char, double} x payload {int, Counted}; optional / masked_value whose flag is a bitset "
+        "element reference held by value (value closure T | T&, block uint8_t | uint64_t); xcomplex<T|T&, T|T&> x T in {double, int}; bitset element references (uint8_t | uint64_t blocks, owning bitset | view, 70 bits, "
+        "reached by operator[] / at() / front()-back() / *iterator) and proxy_wrapper of such a reference; element proxies of xoptional_vector<int | Counted> and xoptional_array<int | double, 70> with flag blocks of 64 and 8 bits - "
+        "x configuration {second referent equal / different; value referents same | distinct; flag referents same | distinct; flag contents over the WHOLE flag alphabet squared - 0, 1 and truthy values other than 1: "
+        "2, -1, 0x80, 3, 0.25, -2.5; bit / element pairs (i,j) over {0,7,8,63,64,69} resp. {0,1,63,64,69} incl. i==j (same block, different blocks, one bit or element through two proxies), all bit / presence combinations, "
+        "2 (thorough: 4) backgrounds of the other bits / elements} x swap spelling {a.swap(b), b.swap(a), a.swap(a), using std::swap; swap(a,b) | swap(b,a) | swap(a,a) on lvalues, swap(<temporary>, <temporary>), "
+        "swap(lvalue, <temporary>), std::iter_swap} - each spelling only where the kind offers it: a committed capability table, probed at compile time (a spelling that no longer compiles is a violation, a new one is executed) - "
+        "x {applied once, applied twice}; oracle: the contents of the two designated cells are exchanged EXACTLY component by component (the very flag value, not its truth value), a cell both designate keeps its content, "
+        "every other object / bit / element of the world is untouched, no component designates another object afterwards, a self-swap changes nothing and swapping twice restores the initial state; "
+        "registry / AddressSanitizer / leak per scenario; thorough: also -std=c++20. "
         "POINTER PAYLOADS: T in {int*, const int*, Counted*} as value closures (built from a prvalue / an xvalue pointer: the wrapper owns the pointer value) and as reference closures (T*&, T* const&: "
         "the wrapper aliases the pointer variable) of closure, const_closure, proxy_wrapper (get, rvalue get, conversion, assign value, copy/move construct, copy-assign (also from const), move-assign, "
         "member and ADL swap, == / != incl. different pointers to equal pointees, operator& and writing through it, null), closure_pointer, optional, masked_value: 146 forms x 3 payloads; the pointees are "
@@ -522,8 +534,11 @@ def run(ctx):
         "AddressSanitizer (use-after-scope, use-after-return, heap-use-after-free) decides dangling references to int payloads; for class payloads the address registry decides independently",
         "temporary wrappers: only expressions in which the LIBRARY decides between a value and a reference are judged; C++ itself makes `const T& r = *closure_pointer(T())`, a reference bound to an xvalue of the is-a "
         "xproxy_wrapper_impl<T>, static_cast<const T&>(temporary wrapper) and references returned through a function dangle on any implementation: those forms are not enumerated",
-        "reference-like payloads: xoptional::swap (it calls std::swap qualified on the unchanged tree) and `using std::swap; swap(a, b)` on two xproxy_wrapper_impl objects (the class offers no swap of its own) "
-        "are not enumerated: see NOTES.md section 11; payload handles without a swap of their own (xoptional<T&,B&>, xbitset_reference) are outside the alphabet",
+        "reference-like payloads (gen_nest.py): xoptional::swap and `using std::swap; swap(a, b)` on two xproxy_wrapper_impl objects are not in the operation alphabet of THAT part (NOTES.md section 11); "
+        "they are enumerated by the swap-kinds part (section 12) for the handles the library itself produces (bitset element references, optional-sequence proxies)",
+        "swap kinds: a swap spelling a kind does not offer on the pinned tree (no member swap; `using std::swap; swap` not viable or ambiguous; nothing accepts temporaries) has no executions: it is listed in the expected() table "
+        "of the kind in swapx.cpp, probed at compile time in every run and counted (swap_spellings_not_offered_by_the_kind); swaps between wrappers of DIFFERENT closure types (xmasked_value's member template: ill-formed, "
+        "private access), const closures and components that cross-alias (a's value and b's flag one object) are outside the alphabet",
     ]
 
 
